@@ -20,6 +20,19 @@ fn main() {
         eprintln!("usage: h3-verif-replay <scenario> [args]");
         std::process::exit(2);
     }
+    // a panic inside h3 while a scenario runs is itself a reproduction (no peer behaviour may make h3 panic)
+    let scenario = args[1].clone();
+    let rc = match std::panic::catch_unwind(std::panic::AssertUnwindSafe(|| run_scenario(&args))) {
+        Ok(rc) => rc,
+        Err(_) => {
+            println!("REPRODUCED: h3 panicked while scenario '{}' ran", scenario);
+            1
+        }
+    };
+    std::process::exit(rc);
+}
+
+fn run_scenario(args: &[String]) -> i32 {
     let rc = match args[1].as_str() {
         "c05_lost_wakeup" => c05_lost_wakeup(args.get(2).map(|s| s.as_str()).unwrap_or("")),
         "c02_decoder_memo" => c02_decoder_memo(),
@@ -41,6 +54,7 @@ fn main() {
         "c12_send_order" => c12_send_order(),
         "c12_field_sequence" => c12_field_sequence(args.get(2).map(|s| s.as_str()).unwrap_or("ab=x,Ab=y")),
         "c10_stale_limit" => c10_stale_limit(),
+        "c02_chunking_independence" => c02_chunking_independence(),
         "c06_poll_next_spin" => c06_poll_next_spin(),
         "c03_frame_after_trailers" => c03_frame_after_trailers(),
         "c08_client_goaways" => c08_client_goaways(args.get(2).map(|s| s.as_str()).unwrap_or("8,4,8")),
@@ -68,7 +82,7 @@ fn main() {
             2
         }
     };
-    std::process::exit(rc);
+    rc
 }
 
 /// Schedule found by the solver: driver get() -> stream get_or_init() -> stream wake() -> driver register().
@@ -1636,5 +1650,79 @@ fn c09_end_order(order: &str) -> i32 {
         }
     }
     std::mem::forget(conn);
+    rc
+}
+
+
+/// Server request stream carrying HEADERS, DATA "hello", an unknown frame (type 0x21, 3 bytes), DATA "abc", FIN, delivered
+/// under EVERY way of cutting the byte string into one, two or three transport chunks: whatever the chunking the request
+/// resolves and the body delivered is exactly "helloabc", followed by the end of the body and no trailers.
+fn c02_chunking_independence() -> i32 {
+    let block = [0x00u8, 0x00, 0xd1, 0xd7, 0xc1, 0x50, 0x01, b'a'];
+    let mut wire = vec![0x01, block.len() as u8];
+    wire.extend_from_slice(&block);
+    wire.extend_from_slice(&[0x00, 0x05, b'h', b'e', b'l', b'l', b'o']);
+    wire.extend_from_slice(&[0x21, 0x03, 1, 2, 3]);
+    wire.extend_from_slice(&[0x00, 0x03, b'a', b'b', b'c']);
+    let n = wire.len();
+    let mut tried = 0;
+    let mut rc = 0;
+    for i in 0..=n {
+        for j in i..=n {
+            let mut events = Vec::new();
+            for part in [&wire[..i], &wire[i..j], &wire[j..]] {
+                if !part.is_empty() {
+                    events.push(RecvEvent::Data(part.to_vec()));
+                }
+            }
+            events.push(RecvEvent::Fin);
+            let mock = Mock::new(true);
+            let mut conn: h3::server::Connection<Mock, Bytes> =
+                drive(h3::server::builder().build(mock.clone()), 10).expect("build completes").expect("build ok");
+            mock.push_bidi(0, events);
+            tried += 1;
+            let outcome = (|| -> Result<Vec<u8>, String> {
+                let resolver = match drive(conn.accept(), 10) {
+                    Some(Ok(Some(r))) => r,
+                    other => return Err(format!("accept: {}", if other.is_none() { "pending" } else { "error / none" })),
+                };
+                let (_req, mut stream) = match drive(resolver.resolve_request(), 10) {
+                    Some(Ok(x)) => x,
+                    Some(Err(e)) => return Err(format!("resolve_request: {:?}", e)),
+                    None => return Err("resolve_request: pending".to_string()),
+                };
+                let mut body = Vec::new();
+                loop {
+                    match drive(stream.recv_data(), 10) {
+                        Some(Ok(Some(mut b))) => {
+                            use bytes::Buf;
+                            while b.has_remaining() {
+                                body.push(b.chunk()[0]);
+                                b.advance(1);
+                            }
+                        }
+                        Some(Ok(None)) => break,
+                        Some(Err(e)) => return Err(format!("recv_data: {:?}", e)),
+                        None => return Err("recv_data: pending".to_string()),
+                    }
+                }
+                match drive(stream.recv_trailers(), 10) {
+                    Some(Ok(None)) => {}
+                    other => return Err(format!("recv_trailers: {:?}", other.map(|r| r.map(|t| t.is_some()).map_err(|e| format!("{:?}", e))))),
+                }
+                std::mem::forget(stream);
+                Ok(body)
+            })();
+            std::mem::forget(conn);
+            if outcome.as_deref() != Ok(&b"helloabc"[..]) {
+                if rc == 0 {
+                    println!("chunks cut at {} and {} of {} bytes: {:?}", i, j, n, outcome.map(|b| String::from_utf8_lossy(&b).to_string()));
+                    println!("REPRODUCED: the outcome depends on how the bytes were cut into transport chunks");
+                }
+                rc = 1;
+            }
+        }
+    }
+    println!("{} chunkings tried", tried);
     rc
 }
